@@ -48,10 +48,10 @@ def _triangulate(faces):
     return out
 
 
-def _lsolid():
+def _lsolid(cells=((0, 0, 0), (1, 0, 0), (0, 1, 0), (0, 0, 1))):
     from .alphabet import _vox_mesh
 
-    verts, faces = _vox_mesh([(0, 0, 0), (1, 0, 0), (0, 1, 0), (0, 0, 1)])
+    verts, faces = _vox_mesh(list(cells))
     return np.array(verts, float), [np.array(f) for f in faces]
 
 
@@ -73,6 +73,11 @@ def make_base(name):
         elif tag == "lsolid":
             v, faces = _lsolid()
             v = v @ R.T * 1.5 + off
+            return S.Polyhedron(v, faces, faces_are_convex=True)
+        elif tag == "ushape":
+            # not star-shaped about its centroid (the centroid lies in the gap of the U)
+            v, faces = _lsolid(((0, 0, 0), (1, 0, 0), (2, 0, 0), (0, 1, 0), (2, 1, 0), (0, 2, 0), (2, 2, 0)))
+            v = v @ _rot((2, -1, 5, 3)).T * 0.8 + np.array([-2.0, 3.0, 1.0])
             return S.Polyhedron(v, faces, faces_are_convex=True)
         if cls == "ConvexPolyhedron":
             return S.ConvexPolyhedron(v)
@@ -109,6 +114,7 @@ BASES = [
     "Polyhedron/lattice",
     "Polyhedron/tri",
     "Polyhedron/lsolid",
+    "Polyhedron/ushape",
     "ConvexSpheropolyhedron/chiral",
     "ConvexSpheropolyhedron/lattice",
     "Polygon/chiral",
